@@ -322,7 +322,7 @@ Theorem viss_metadata_sound st path line :
   In line (tl (viss_metadata st path)) ->
   exists id e, In (id, e) (entries (st_db st)) /\ bytes_prefix path (m_path (e_meta e)) = true /\
                line = [205; id; kuksa_entry_type (m_etype (e_meta e)); kuksa_data_type (m_dtype (e_meta e))]
-                      ++ enc_opt_val (m_allowed (e_meta e)).
+                      ++ enc_opt_val (m_allowed (e_meta e)) ++ [1].
 Proof.
   unfold viss_metadata. cbn [tl]. intros H. apply in_map_iff in H. destruct H as ([id e] & Hl & Hin).
   apply sort_by_in in Hin. apply filter_In in Hin. destruct Hin as (Hin & Hp). cbn [snd] in Hp.
@@ -332,7 +332,7 @@ Qed.
 Theorem viss_metadata_complete st path id e :
   In (id, e) (entries (st_db st)) -> bytes_prefix path (m_path (e_meta e)) = true ->
   In ([205; id; kuksa_entry_type (m_etype (e_meta e)); kuksa_data_type (m_dtype (e_meta e))]
-      ++ enc_opt_val (m_allowed (e_meta e))) (tl (viss_metadata st path)).
+      ++ enc_opt_val (m_allowed (e_meta e)) ++ [1]) (tl (viss_metadata st path)).
 Proof.
   intros Hin Hp. unfold viss_metadata. cbn [tl]. apply in_map_iff. exists (id, e). split; [reflexivity|].
   apply sort_by_in. apply filter_In. split; [exact Hin|exact Hp].
